@@ -3,7 +3,7 @@
    lsqr monotonicity and lsqr's cost = SciPy r1norm are harness comparisons
    (LSQR is not modelled). *)
 From Coq Require Import QArith Qcanon.
-From PV Require Import Dict Vec Dot Mat QcInst Check CG CGLS CGLSFacts CGLSMono OMP.
+From PV Require Import Dict Vec Dot Mat QcInst Check CG CGLS CGLSFacts CGLSMono OMP LSQR LSQRRes.
 Import ListNotations.
 
 (* cg: |cost| = 1 + iiter, iiter <= niter, the callback receives exactly x_1..x_iiter in order,
@@ -118,6 +118,64 @@ Theorem C10_mp_cost_truthful : forall (F : OrdField) nrm n A y nc nout sigma,
   cost F s = rev (map (fun t => nrm (resid F A y (finalize F n t))) (s :: tr)) /\ iiter F s = length tr.
 Proof. exact mp_cost_truthful. Qed.
 Print Assumptions C10_mp_cost_truthful.
+
+(* LSQR (model Solvers/LSQR.v, supplied exact roots): the cost history has one entry for the start plus one per
+   step, whatever roots are supplied *)
+Theorem C10_lsqr_cost_length :
+  forall (O : OrdField) n (A : list (list O)) damp (st : lstate O) (rts : list (roots O)),
+  length (l_cost O st) = S (l_iiter O st) ->
+  length (l_cost O (lsqr_iter O n A damp st rts)) = S (l_iiter O (lsqr_iter O n A damp st rts)).
+Proof. exact lsqr_cost_length. Qed.
+Print Assumptions C10_lsqr_cost_length.
+
+(* LSQR: the running estimate rnorm (returned as r2norm) never increases, for every damp:
+   rnorm_k^2 - rnorm_{k+1}^2 = phi_{k+1}^2 >= 0, and the invariant rnorm^2 = phibar^2 + res2 is preserved
+   (hypotheses: the two rotation norms and rnorm are exact roots, rhobar1 <> 0, rho <> 0) *)
+Theorem C10_lsqr_rnorm_monotone_step :
+  forall (O : OrdField) n (A : list (list O)) damp (st : lstate O) (rt : roots O),
+  rn_inv O st ->
+  exact O (rt_rhobar1 O rt) (radd O (rmul O (l_rhobar O st) (l_rhobar O st)) (rmul O damp damp)) -> rt_rhobar1 O rt <> r0 O ->
+  exact O (rt_rho O rt) (radd O (rmul O (rt_rhobar1 O rt) (rt_rhobar1 O rt)) (rmul O (rt_beta O rt) (rt_beta O rt))) -> rt_rho O rt <> r0 O ->
+  let st' := lsqr_step O n A damp st rt in
+  let phi := rmul O (rdiv O (rt_rhobar1 O rt) (rt_rho O rt)) (rmul O (rdiv O (l_rhobar O st) (rt_rhobar1 O rt)) (l_phibar O st)) in
+  exact O (rt_rnorm O rt) (radd O (rmul O (l_phibar O st') (l_phibar O st')) (l_res2 O st')) ->
+  rn_inv O st' /\ l_r2norm O st' = l_rnorm O st' /\
+  radd O (rmul O (l_rnorm O st') (l_rnorm O st')) (rmul O phi phi) = rmul O (l_rnorm O st) (l_rnorm O st) /\
+  rle O (rmul O (l_rnorm O st') (l_rnorm O st')) (rmul O (l_rnorm O st) (l_rnorm O st)).
+Proof. exact lsqr_rnorm_step. Qed.
+Print Assumptions C10_lsqr_rnorm_monotone_step.
+
+(* LSQR, damp = 0, ALL k and all sizes: the true residual of the k-th iterate is phibar_k times the vector
+   u~_k (u~_1 = u_1, u~_{k+1} = cs1 sn u~_k - cs u_{k+1}); hypotheses along the run: no breakdown (beta_k > 0) and the two
+   rotation norms rhobar1_k, rho_k exact and non-zero.  (Local induction, no orthogonality needed.) *)
+Theorem C10_lsqr_residual_direction :
+  forall (O : OrdField) n (A : list (list O)), wfM O n A -> forall y, length y = length A ->
+  forall x0 sb sa rts, x0_ok O n x0 -> gt0 O sb = true ->
+  all_good O n A (lsqr_setup O n A y x0 sb sa) rts ->
+  let st := lsqr_iter O n A (r0 O) (lsqr_setup O n A y x0 sb sa) rts in
+  vsub O y (mv O A (l_x O st)) = vscale O (l_phibar O st) (l_ut O st).
+Proof. exact lsqr_residual_direction. Qed.
+Print Assumptions C10_lsqr_residual_direction.
+
+(* ... hence cost_k^2 = r1norm_k^2 = phibar_k^2 = ||y - A x_k||^2 as soon as u~_k is a unit vector.
+   PARTIAL: ||u~_k|| = 1 needs the mutual orthogonality of the Lanczos vectors u_1..u_{k+1} (not proved; hypothesis here).
+   The harness checks the conclusion on every generated run (cost[k] vs ||y - Op x_k|| for damp = 0). *)
+Theorem C10_lsqr_phibar_is_residual_norm_partial :
+  forall (O : OrdField) n (A : list (list O)), wfM O n A -> forall y, length y = length A ->
+  forall x0 sb sa rts, x0_ok O n x0 -> gt0 O sb = true ->
+  all_good O n A (lsqr_setup O n A y x0 sb sa) rts ->
+  let st := lsqr_iter O n A (r0 O) (lsqr_setup O n A y x0 sb sa) rts in
+  dot O (l_ut O st) (l_ut O st) = r1 O ->
+  lsres2 O A y (l_x O st) = rmul O (l_phibar O st) (l_phibar O st).
+Proof. exact lsqr_phibar_is_residual_norm_partial. Qed.
+Print Assumptions C10_lsqr_phibar_is_residual_norm_partial.
+
+Example C10_lsqr_hypotheses_satisfiable :
+  wfM QcO 1 exA /\ length exy = length exA /\ gt0 QcO (qz 1) = true /\
+  all_good QcO 1 exA (lsqr_setup QcO 1 exA exy None (qz 1) (qz 3)) [exrt] /\
+  l_phibar QcO (lsqr_iter QcO 1 exA z0 (lsqr_setup QcO 1 exA exy None (qz 1) (qz 3)) [exrt]) <> 0%Qc.
+Proof. exact example_lsqr_good. Qed.
+Print Assumptions C10_lsqr_hypotheses_satisfiable.
 
 Example C10_hypotheses_satisfiable :
   wfM QcF 2 eA /\ length ey = length eA /\ (forall v : list QcF, absR (dot QcF v v) = dot QcF v v) /\
